@@ -112,6 +112,71 @@ func c10FirstBool(exprs []ast.Expr) string {
 	return "(\"<stale>\" == \"\")"
 }
 
+// c10CallArg: the (only) argument of the only call of `callee` inside one function, as source text
+// (`exprStr`: identifiers and selectors verbatim, a call as `f()`); "<stale:…>" for any other shape.
+func c10CallArg(file, recv, fn, callee string) string {
+	fd := findFunc(file, recv, fn)
+	if fd == nil || fd.Body == nil {
+		return "<stale:" + fn + ">"
+	}
+	var found []string
+	ast.Inspect(fd.Body, func(n ast.Node) bool {
+		if c, ok := n.(*ast.CallExpr); ok {
+			name := ""
+			switch f := c.Fun.(type) {
+			case *ast.Ident:
+				name = f.Name
+			case *ast.SelectorExpr:
+				name = f.Sel.Name
+			}
+			if name == callee {
+				if len(c.Args) == 1 {
+					found = append(found, exprStr(c.Args[0]))
+				} else {
+					found = append(found, "<stale:args>")
+				}
+			}
+		}
+		return true
+	})
+	if len(found) != 1 {
+		return "<stale:" + fn + " calls " + callee + " " + strconv.Itoa(len(found)) + " times>"
+	}
+	return found[0]
+}
+
+// c10LitField: the value given to `key` in the composite literals of one function (exactly one), as source text.
+func c10LitField(file, recv, fn, key string) string {
+	fd := findFunc(file, recv, fn)
+	if fd == nil || fd.Body == nil {
+		return "<stale:" + fn + ">"
+	}
+	var found []string
+	ast.Inspect(fd.Body, func(n ast.Node) bool {
+		if kv, ok := n.(*ast.KeyValueExpr); ok {
+			if id, ok := kv.Key.(*ast.Ident); ok && id.Name == key {
+				found = append(found, exprStr(kv.Value))
+			}
+		}
+		return true
+	})
+	// an assignment `x.Crontab = …` anywhere in the function overrides the literal: report it
+	ast.Inspect(fd.Body, func(n ast.Node) bool {
+		if as, ok := n.(*ast.AssignStmt); ok {
+			for _, l := range as.Lhs {
+				if se, ok := l.(*ast.SelectorExpr); ok && se.Sel.Name == key {
+					found = append(found, "<stale:assigned>")
+				}
+			}
+		}
+		return true
+	})
+	if len(found) != 1 {
+		return "<stale:" + fn + " sets " + key + " " + strconv.Itoa(len(found)) + " times>"
+	}
+	return found[0]
+}
+
 func init() {
 	factFns = append(factFns, func(l *leanDefs) {
 		const v1f = "pkg/hook/config/config_v1.go"
@@ -155,6 +220,12 @@ func init() {
 		l.def("c10DefaultKubeNameV0", "String", q(c10FirstLit(c10Assigns(v0f, "HookConfigV0", "ConvertAndCheck", "kubeConfig.BindingName"), bt)), v0f)
 		l.def("c10DefaultQueueV0Kube", "String", q(c10FirstLit(c10Assigns(v0f, "HookConfigV0", "ConvertAndCheck", "kubeConfig.Queue"), bt)), v0f)
 		l.def("c10DefaultQueueV0Sched", "String", q(c10FirstLit(c10Assigns(v0f, "HookConfigV0", "ConvertSchedule", "res.Queue"), bt)), v0f)
+		// the crontab expression CheckSchedule hands to ParseCrontab and the one ConvertSchedule stores in
+		// ScheduleEntry.Crontab (the text the schedule manager gives to cron.AddFunc): validated = stored
+		l.def("c10CheckedCrontabV1", "String", q(c10CallArg(v1f, "HookConfigV1", "CheckSchedule", "ParseCrontab")), v1f+" CheckSchedule ParseCrontab(arg)")
+		l.def("c10StoredCrontabV1", "String", q(c10LitField(v1f, "HookConfigV1", "ConvertSchedule", "Crontab")), v1f+" ConvertSchedule ScheduleEntry{Crontab:}")
+		l.def("c10CheckedCrontabV0", "String", q(c10CallArg(v0f, "HookConfigV0", "CheckSchedule", "ParseCrontab")), v0f+" CheckSchedule ParseCrontab(arg)")
+		l.def("c10StoredCrontabV0", "String", q(c10LitField(v0f, "HookConfigV0", "ConvertSchedule", "Crontab")), v0f+" ConvertSchedule ScheduleEntry{Crontab:}")
 		// versions that have a schema: keys of the Schemas map literal
 		var vers []string
 		if f := parse("pkg/hook/config/schemas.go"); f != nil {
